@@ -85,6 +85,8 @@ type orch struct {
 	known   map[string]bool
 	strays  int64
 	maxFrac float64
+	nearLimit []string
+	unconfInfo []string
 	maxFracCase string
 	maxMicros int64
 	maxMicrosCase string
@@ -166,6 +168,7 @@ func (o *orch) spawn(items []item, timeout time.Duration, deadline int64) (outs 
 	wo := o.c.SpawnWorker([]string{path}, []string{"GOMAXPROCS=1", "GOGC=15", "TMPDIR=" + o.dir, "GOTRACEBACK=single"}, timeout, memLimit)
 	outs = make([]outcome, len(items))
 	pending := -1
+	watchdog := false
 	data, err := os.ReadFile(path + ".journal")
 	if err == nil {
 		if z := bytes.IndexByte(data, 0); z >= 0 {
@@ -199,6 +202,7 @@ func (o *orch) spawn(items []item, timeout time.Duration, deadline int64) (outs 
 					outs[k] = outcome{Done: true, Status: "hang", Died: true, Detail: fmt.Sprintf("case still running after %v; worker aborted by its watchdog", caseWatchdog)}
 					next = k + 1
 					atomic.AddInt64(&o.deaths, 1)
+					watchdog = true
 				}
 				pending = -1
 			case "S":
@@ -213,7 +217,7 @@ func (o *orch) spawn(items []item, timeout time.Duration, deadline int64) (outs 
 		outs[pending] = outcome{Done: true, Status: st, Site: site, Detail: detail, Died: true}
 		next = pending + 1
 		atomic.AddInt64(&o.deaths, 1)
-	} else if wo.ExitCode != 0 && next > 0 {
+	} else if wo.ExitCode != 0 && next > 0 && !watchdog {
 		// the worker died between two cases (for example in a background goroutine): nobody to blame
 		atomic.AddInt64(&o.strays, 1)
 		lastErrMu.Lock()
@@ -360,8 +364,8 @@ func rootKey(cs Case, o outcome) string {
 		return cs.Group + "|" + o.Status + "@" + o.Site
 	}
 	if len(cs.Devs) >= 2 {
-		// two deviations: the field pair is not part of the key (one cause shows under many pairs)
-		return o.Status + "|" + family(cs) + "|" + cs.devKinds()
+		// two deviations: neither kinds nor fields are part of the key (one cause shows under many pairs)
+		return o.Status + "|" + family(cs) + "|pair"
 	}
 	kinds := cs.devKinds()
 	if kinds == "struct" || kinds == "varint" {
@@ -394,6 +398,10 @@ func (o *orch) triage(fails []failRec) (confirmed, unconfirmed int) {
 	}
 	fresh := keys[:0]
 	for _, k := range keys {
+		if p := strings.Split(k, "|"); len(p) == 3 && p[2] == "pair" && o.known[p[0]+"|"+p[1]] {
+			// a pair failing the way single deviations of the same entry point already do
+			o.known[k] = true
+		}
 		if o.known[k] {
 			o.c.Add("failing_cases_of_causes_already_reported", int64(len(groups[k])))
 			continue
@@ -401,6 +409,17 @@ func (o *orch) triage(fails []failRec) (confirmed, unconfirmed int) {
 		fresh = append(fresh, k)
 	}
 	keys = fresh
+	// confirmation order: the slow classes first so that they overlap with the rest
+	rank := func(k string) int {
+		switch {
+		case strings.HasPrefix(k, "hang") || strings.Contains(k, "|hang"):
+			return 0
+		case strings.Contains(k, "oom"):
+			return 1
+		}
+		return 2
+	}
+	sort.SliceStable(keys, func(i, j int) bool { return rank(keys[i]) < rank(keys[j]) })
 	type verdict struct {
 		key   string
 		rec   failRec
@@ -446,11 +465,28 @@ func (o *orch) triage(fails []failRec) (confirmed, unconfirmed int) {
 		g := groups[v.key]
 		if !v.ok {
 			unconfirmed++
-			o.c.Sample(map[string]interface{}{"unconfirmed_failure": g[0].cs.String(), "first_seen_as": g[0].out.Status, "detail": g[0].out.Detail, "candidates_tried": v.tried})
+			if len(o.unconfInfo) < 12 {
+				o.unconfInfo = append(o.unconfInfo, fmt.Sprintf("%s seen as %s (%s) after %.1fs; %d candidate(s) re-run alone 3 times without failing 3 times", g[0].cs.String(), g[0].out.Status, g[0].out.Detail, float64(g[0].out.Micros)/1e6, v.tried))
+			}
 			continue
 		}
+		// the class seen alone in a fresh worker is the one reported; it may differ from the one seen
+		// in the batch (for example out-of-memory there, a mere over-allocation here)
+		ck := rootKey(v.rec.cs, v.runs[0])
+		if p := strings.Split(ck, "|"); len(p) == 3 && p[2] == "pair" && o.known[p[0]+"|"+p[1]] {
+			o.known[ck] = true
+		}
+		if ck != v.key && o.known[ck] {
+			o.known[v.key] = true
+			o.c.Add("failing_cases_of_causes_already_reported", int64(len(g)))
+			continue
+		}
+		o.known[ck] = true
 		confirmed++
 		o.known[v.key] = true
+		if first := v.runs[0]; first.Site == "" {
+			o.known[first.Status+"|"+family(v.rec.cs)] = true
+		}
 		first := v.runs[0]
 		classes := map[string]bool{}
 		for _, r := range v.runs {
@@ -517,8 +553,12 @@ func (o *orch) account(items []item, outs []outcome, depth int) (fails []failRec
 		}
 		o.c.Distinct("outcomes", cs.Group+":"+r.Status+":"+r.How)
 		if r.Status == "ok" {
-			if f := float64(r.Alloc) / float64(allowedAlloc(r.InLen)); f > o.maxFrac {
+			f := float64(r.Alloc) / float64(allowedAlloc(r.InLen))
+			if f > o.maxFrac {
 				o.maxFrac, o.maxFracCase = f, cs.String()
+			}
+			if f > 0.5 && len(o.nearLimit) < 12 {
+				o.nearLimit = append(o.nearLimit, fmt.Sprintf("%.3f %s", f, cs.String()))
 			}
 			if r.Micros > o.maxMicros {
 				o.maxMicros, o.maxMicrosCase = r.Micros, cs.String()
@@ -762,6 +802,12 @@ func run(c *core.Ctx) {
 		c.Set("worker_deaths_between_cases_detail", o.strayInfo)
 	}
 	c.Set("largest_alloc_fraction_of_limit_among_passing_cases", fmt.Sprintf("%.3f (%s)", o.maxFrac, o.maxFracCase))
+	if len(o.nearLimit) > 0 {
+		c.Set("passing_cases_above_half_the_alloc_limit", o.nearLimit)
+	}
+	if len(o.unconfInfo) > 0 {
+		c.Set("failures_not_confirmed_detail", o.unconfInfo)
+	}
 	c.Set("slowest_passing_case", fmt.Sprintf("%.2fs (%s)", float64(o.maxMicros)/1e6, o.maxMicrosCase))
 	c.Set("root_causes_confirmed", conf)
 	c.Set("failures_not_confirmed_in_isolation", unconf)
